@@ -53,17 +53,26 @@ type (
 		Re   string        `json:"re"`
 		Vars []verifC04Var `json:"vars"`
 	}
+	verifC04SeqElem struct {
+		Neg bool   `json:"neg"`
+		Dir int    `json:"d"`
+		Re  string `json:"re"`
+	}
 	verifC04Cond struct {
 		Inv   bool           `json:"inv"`
 		Elems []verifC04Elem `json:"elems"`
 	}
 	verifC04Case struct {
-		ID      int              `json:"id"`
-		NConv   int              `json:"nconv"`
-		Conv    string           `json:"conv"`  // converter name of all conditions: "", "none", "c0"...
-		Sport   int              `json:"sport"` // != 0: every conjunction also carries the filter sport:<n>
-		Streams []verifC04Stream `json:"streams"`
-		Or      [][]verifC04Cond `json:"or"`
+		ID    int    `json:"id"`
+		NConv int    `json:"nconv"`
+		Conv  string `json:"conv"`  // converter name of all conditions: "", "none", "c0"...
+		Sport int    `json:"sport"` // != 0: every conjunction also carries the filter sport:<n>
+		// query text of a THEN sequence with negated elements: SearchStreams gets query.Parse(Text), the plain evaluation
+		// reads the sequence from Seq (the generator's own structure, not the parsed conditions)
+		Text    string            `json:"text"`
+		Seq     []verifC04SeqElem `json:"seq"`
+		Streams []verifC04Stream  `json:"streams"`
+		Or      [][]verifC04Cond  `json:"or"`
 	}
 	verifC04Out struct {
 		ID    int               `json:"id"`
@@ -276,6 +285,49 @@ func verifC04Naive(c *verifC04Case, conds []verifC04Cond, st *verifC04Stream, su
 	return result, nil
 }
 
+// the meaning of `e1 then e2 then ...` with negated elements, read off the text: every element is searched in the data that
+// follows the last element that had to match; a plain element has to match there (and moves on), a negated one must not
+func verifC04NaiveText(seq []verifC04SeqElem, chunks []verifC04Chunk) (bool, error) {
+	data := [2][]byte{}
+	type span struct{ dir, begin, end int }
+	spans := []span{}
+	for _, ch := range chunks {
+		b, _ := hex.DecodeString(ch.Data)
+		spans = append(spans, span{ch.Dir, len(data[ch.Dir]), len(data[ch.Dir]) + len(b)})
+		data[ch.Dir] = append(data[ch.Dir], b...)
+	}
+	off := [2]int{}
+	for _, e := range seq {
+		rx, err := binaryregexp.Compile(e.Re)
+		if err != nil {
+			return false, err
+		}
+		loc := rx.FindIndex(data[e.Dir][off[e.Dir]:])
+		if e.Neg {
+			if loc != nil {
+				return false, nil
+			}
+			continue
+		}
+		if loc == nil {
+			return false, nil
+		}
+		if loc[1] != 0 {
+			off[e.Dir] += loc[1]
+			other, before := 1-e.Dir, 0
+			for _, s := range spans {
+				if s.dir == other {
+					before = s.end
+				} else if s.begin < off[e.Dir] && off[e.Dir] <= s.end {
+					break
+				}
+			}
+			off[other] = before
+		}
+	}
+	return true, nil
+}
+
 func verifC04NaiveSeq(cd verifC04Cond, chunks []verifC04Chunk, subs *[]verifC04Sub) (bool, error) {
 	data := [2][]byte{}
 	type span struct{ dir, begin, end int }
@@ -381,7 +433,18 @@ func verifC04Run(c *verifC04Case, dir string) (out verifC04Out) {
 		sel := []string{}
 		for id := range c.Streams {
 			any := false
+			if c.Text != "" {
+				ok, err := verifC04NaiveText(c.Seq, c.Streams[id].Raw)
+				if err != nil {
+					out.Naive = "ERR " + err.Error()
+					return
+				}
+				any = ok
+			}
 			for _, conj := range c.Or {
+				if c.Text != "" {
+					break
+				}
 				ok, err := verifC04Naive(c, conj, &c.Streams[id], &out.Subs)
 				if err != nil {
 					out.Naive = "ERR " + err.Error()
@@ -454,7 +517,18 @@ func verifC04Run(c *verifC04Case, dir string) (out verifC04Out) {
 			extra = q.Conditions[0]
 		}
 		qs := query.ConditionsSet{}
+		if c.Text != "" {
+			q, err := query.Parse(c.Text)
+			if err != nil {
+				out.Impl = "ERR parse text: " + err.Error()
+				return
+			}
+			qs = q.Conditions
+		}
 		for _, conj := range c.Or {
+			if c.Text != "" {
+				break
+			}
 			cs := append(query.Conditions{}, extra...)
 			for _, cd := range conj {
 				dc := &query.DataCondition{Inverted: cd.Inv}
